@@ -24,7 +24,7 @@ REQUIRED = ['forward', 'pullback', 'pullback:second', 'other-graph-between', 're
 def vector_programs():
     out = []
     for prog in progs.cat():
-        if len(prog.ins) != 1 or prog.maxD or ({'fancy', 'nonunique'} & prog.tags):
+        if len(prog.ins) != 1 or prog.maxD or ({'fancy', 'augmented', 'nonunique'} & prog.tags):
             continue
         shape, dom = prog.ins[0]
         out.append((prog.name, shape, dom, prog.f))
